@@ -243,6 +243,15 @@ func (k *kernel) foreignSeen(site int) { k.foreign++ }
 //go:norace
 func (k *kernel) clientWrapped() { k.clientsWrapped++ }
 
+// monitorDue bounds the cost of in-flight snapshot verification: every one of
+// the first 1000 context switches, then every 50th (count-based, so the
+// decision is part of the deterministic execution).
+//
+//go:norace
+func (k *kernel) monitorDue() bool {
+	return k.switches <= 1000 || k.switches%50 == 0
+}
+
 // ---------------------------------------------------------------- map order
 
 //go:norace
@@ -441,7 +450,7 @@ func (k *kernel) yieldBubble(site int) {
 	k.switches++
 	k.event(evSwitch, int64(t.id), int64(site), k.yieldsTotal)
 	k.fingerprint(evSwitch, int64(t.id), int64(site))
-	if k.monitor != nil {
+	if k.monitor != nil && k.monitorDue() {
 		if v := k.monitor(); len(v) > 0 && len(k.snapSw) < 8 {
 			for _, s := range v {
 				k.snapSw = append(k.snapSw, "at switch (task "+strconv.Itoa(t.id)+" op "+strconv.Itoa(t.curOp)+" site "+strconv.Itoa(site)+"): "+s)
@@ -636,7 +645,7 @@ func (k *kernel) yieldRace(site int) {
 	k.switches++
 	k.event(evSwitch, int64(t.id), int64(site), k.yieldsTotal)
 	k.fingerprint(evSwitch, int64(t.id), int64(site))
-	if k.monitor != nil {
+	if k.monitor != nil && k.monitorDue() {
 		k.monitorRace(t, site)
 	}
 	k.handoff(t, false)
